@@ -45,7 +45,7 @@ def galg(depths, budget=120.0, roots=None):
 
 
 GQ = {0: 8, 1: 5, 2: 6}     # quick depths (PessimisticLock: the search closes at depth 8)
-GT = {0: 10, 1: 7, 2: 9}    # thorough depths
+GT = {0: 10, 1: 6, 2: 8}    # thorough depths
 
 
 def lock_spec(prop, tier):
@@ -150,24 +150,24 @@ def idm_spec(prop, tier):
             return (idm_runs((1,), ("basic", "over"), 4) + idm_runs((2,), ("basic", "over1"), 4) + idm_runs((2,), ("over",), 2)
                     + idm_runs((3,), ("basic", "over1"), 2) + idm_runs((4,), ("basic",), 2)
                     + idm_runs((1,), ("churn", "stay"), 3) + idm_runs((2,), ("churn", "stay"), 2) + caps_runs(QUICK_CAPS))
-        return (caps_runs(THOROUGH_CAPS) + idm_runs((1,), ("basic", "over", "reuse"), 5, 600, 300) + idm_runs((2,), ("basic", "over1"), 5, 600, 300)
-                + idm_runs((2, 3), ("basic", "over", "reuse"), 3, 600, 300) + idm_runs((4,), ("basic", "over1"), 2, 600, 300)
-                + idm_runs((1, 2), ("churn", "stay"), 4, 900, 900) + idm_runs((3,), ("churn", "stay"), 2, 600, 600))
+        return (caps_runs(THOROUGH_CAPS) + idm_runs((1,), ("basic", "over", "reuse"), 5, 400, 300) + idm_runs((2,), ("basic", "over1"), 5, 400, 300)
+                + idm_runs((2, 3), ("basic", "over", "reuse"), 3, 400, 300) + idm_runs((4,), ("basic", "over1"), 2, 400, 300)
+                + idm_runs((1, 2), ("churn", "stay"), 4, 500, 500) + idm_runs((3,), ("churn", "stay"), 2, 400, 400))
     if prop == "C14":
         if q:
             return (idm_runs((1, 2), ("over", "reuse", "salted", "pinned"), 3) + idm_runs((3,), ("over1", "reuse1", "salted", "pinned"), 2)
                     + idm_runs((1,), ("churn", "stay"), 3) + idm_runs((2,), ("churn", "stay"), 2) + caps_runs(QUICK_CAPS))
-        return (caps_runs(THOROUGH_CAPS) + idm_runs((1, 2, 3), ("over", "reuse", "big", "salted", "pinned"), 3, 600, 300)
-                + idm_runs((4,), ("over1", "reuse1", "salted"), 2, 600, 300)
-                + idm_runs((1, 2), ("churn", "stay"), 3, 900, 900) + idm_runs((3,), ("churn", "stay"), 2, 600, 600))
+        return (caps_runs(THOROUGH_CAPS) + idm_runs((1, 2, 3), ("over", "reuse", "big", "salted", "pinned"), 3, 400, 300)
+                + idm_runs((4,), ("over1", "reuse1", "salted"), 2, 400, 300)
+                + idm_runs((1, 2), ("churn", "stay"), 3, 500, 500) + idm_runs((3,), ("churn", "stay"), 2, 400, 400))
     if prop == "C15":
         if q:
             return (idm_runs((1, 2), ("basic", "over", "reuse"), 3) + idm_runs((3,), ("basic", "over1", "reuse1"), 2)
                     + idm_runs((1,), ("churn", "stayh"), 3) + idm_runs((2,), ("churn", "stayh"), 2)
                     + caps_runs(QUICK_CAPS[:3]) + [ep(1, ("hb",), 3), ep(2, ("hb",), 2)])
-        return (idm_runs((1, 2, 3), ("basic", "over", "reuse", "big"), 3, 600, 300) + idm_runs((4,), ("basic", "reuse1"), 2, 600, 300)
-                + idm_runs((1, 2), ("churn", "stayh"), 3, 900, 900)
-                + [ep(1, ("hb",), 5, 600, 300), ep(2, ("hb",), 3, 600, 300)])
+        return (idm_runs((1, 2, 3), ("basic", "over", "reuse", "big"), 3, 400, 300) + idm_runs((4,), ("basic", "reuse1"), 2, 400, 300)
+                + idm_runs((1, 2), ("churn", "stayh"), 3, 500, 500)
+                + [ep(1, ("hb",), 5, 400, 300), ep(2, ("hb",), 3, 400, 300)])
     return None
 
 
@@ -196,24 +196,24 @@ def epoch_spec(prop, tier):
     if prop == "C04":
         if q:
             return [ep(1, ("pin1", "recycle", "recreate", "gen1s"), -1), ep(1, ("reuse", "twomgr"), 3), ep(2, ("pin1",), -1), ep(2, ("pin2", "reuse"), 2)]
-        return [ep(1, ("pin1", "recycle", "recreate", "gen1", "genR"), -1, 900, 600), ep(1, ("reuse",), 6, 600, 600), ep(2, ("pin1", "recycle"), -1, 900, 900),
-                ep(2, ("pin2", "public", "gen2"), 4, 900, 900), ep(2, ("reuse",), 3, 900, 900), ep(3, ("pin2", "public"), 3, 600, 600)]
+        return [ep(1, ("pin1", "recycle", "recreate", "gen1", "genR"), -1, 600, 600), ep(1, ("reuse",), 6, 600, 600), ep(2, ("pin1", "recycle"), -1, 600, 600),
+                ep(2, ("pin2", "public", "gen2"), 4, 600, 600), ep(2, ("reuse",), 3, 600, 600), ep(3, ("pin2", "public"), 3, 600, 600)]
     if prop == "C16":
         if q:
             return [ep(1, ("obs", "pin1", "moves", "gen1s"), -1), ep(1, ("twomgr",), 2), ep(2, ("obs", "moves"), 2),
                     ep(2, (), 0, 60, 30, ("--histories", "6"), "sequential histories depth 6")]
-        return [ep(1, ("obs", "pin1", "moves", "list1", "gen1q"), -1, 900, 600), ep(1, ("twomgr",), 4, 600, 600),
-                ep(2, ("obs", "pin1", "pin2", "moves", "gen2", "twomgr"), 4, 900, 900),
+        return [ep(1, ("obs", "pin1", "moves", "list1", "gen1q"), -1, 600, 600), ep(1, ("twomgr",), 4, 600, 600),
+                ep(2, ("obs", "pin1", "pin2", "moves", "gen2", "twomgr"), 4, 600, 600),
                 ep(2, (), 0, 900, 120, ("--histories", "8"), "sequential histories depth 8")]
     if prop == "C17":
         if q:
             return [ep(1, ("list1", "gen1s"), -1), ep(1, ("recycle17",), 3), ep(2, ("list1", "list2"), 2)]
-        return [ep(1, ("list1", "gen1"), -1, 900, 600), ep(1, ("recycle17", "genR"), -1, 600, 600), ep(2, ("recycle17",), 4, 600, 600), ep(2, ("list1",), -1, 900, 900), ep(2, ("list2", "public", "gen2"), 3, 900, 900),
+        return [ep(1, ("list1", "gen1"), -1, 600, 600), ep(1, ("recycle17", "genR"), -1, 600, 600), ep(2, ("recycle17",), 4, 600, 600), ep(2, ("list1",), -1, 600, 600), ep(2, ("list2", "public", "gen2"), 3, 600, 600),
                 ep(3, ("list1", "list2"), 3, 600, 600)]
     if prop == "C20":
         if q:
             return [ep(2, (), 0, 80, 30, ("--histories", "6"), "sequential histories (incl. thread exits) depth 6"), ep(2, ("list1", "list2", "recreate", "recycle17"), 2)]
-        return [ep(2, (), 0, 1200, 120, ("--histories", "9"), "sequential histories (incl. thread exits) depth 9"),
+        return [ep(2, (), 0, 700, 120, ("--histories", "9"), "sequential histories (incl. thread exits) depth 9"),
                 ep(1, (), 0, 600, 120, ("--histories", "11"), "sequential histories depth 11 (1 worker)"),
                 ep(2, ("list1", "list2", "recreate", "recycle17", "pin2", "gen2"), 3, 600, 300)]
     return None
